@@ -229,3 +229,75 @@ func keyOf(q *Term, b map[*Term]*Term) string {
 	}
 	return s
 }
+
+// relaxAssumption weakens an assumption by dropping quantified sub-formulas: a quantifier at a
+// positive position becomes true, at a negative position false; if one occurs at a position
+// of unknown polarity the whole assumption is dropped (nil). Only ever weakens.
+func (c *TermCtx) relaxAssumption(t *Term) *Term {
+	if !containsQuant(t) {
+		return t
+	}
+	r, ok := c.relax(t, true)
+	if !ok {
+		return nil
+	}
+	return r
+}
+
+func containsQuant(t *Term) bool {
+	found := false
+	seen := map[int]bool{}
+	var walk func(t *Term)
+	walk = func(t *Term) {
+		if found || seen[t.id] {
+			return
+		}
+		seen[t.id] = true
+		if t.Op == "forall" || t.Op == "exists" {
+			found = true
+			return
+		}
+		for _, a := range t.Args {
+			walk(a)
+		}
+	}
+	walk(t)
+	return found
+}
+
+func (c *TermCtx) relax(t *Term, pos bool) (*Term, bool) {
+	if !containsQuant(t) {
+		return t, true
+	}
+	switch t.Op {
+	case "forall", "exists":
+		return c.Bool(pos), true
+	case "and", "or":
+		args := make([]*Term, len(t.Args))
+		for i, a := range t.Args {
+			r, ok := c.relax(a, pos)
+			if !ok {
+				return nil, false
+			}
+			args[i] = r
+		}
+		if t.Op == "and" {
+			return c.And(args...), true
+		}
+		return c.Or(args...), true
+	case "not":
+		r, ok := c.relax(t.Args[0], !pos)
+		if !ok {
+			return nil, false
+		}
+		return c.Not(r), true
+	case "=>":
+		a, ok1 := c.relax(t.Args[0], !pos)
+		b, ok2 := c.relax(t.Args[1], pos)
+		if !ok1 || !ok2 {
+			return nil, false
+		}
+		return c.Implies(a, b), true
+	}
+	return nil, false
+}
